@@ -26,6 +26,12 @@ def step (d : D) (toks : List String) : D × String :=
     match lookupNat rest "n" with
     | some n => ({ s := { V := fun v => decide (v < n) }, p := { d.p with nVals := n }, n := n }, "ok")
     | none => (d, "bad-op")
+  | ["genesis", v, st] =>
+    -- a validator that is NOT active in the imported genesis: the consensus engine is handed only the active ones
+    match nat? v, (match st with | "I" => some Status.inactive | "P" => some Status.paused | "J" => some Status.jailed | "A" => some Status.active | _ => none) with
+    | some v, some stt =>
+      ({ d with s := { d.s with status := upd d.s.status v stt, V := upd d.s.V v (stt == .active) } }, "ok")
+    | _, _ => (d, "bad-op")
   | "params" :: rest =>
     match lookupInt rest "mc", lookupInt rest "mm", lookupInt rest "rd", (lookup rest "pct").bind Dec.fromStr,
           lookupInt rest "dt", lookupNat rest "minv", lookupInt rest "ujt" with
